@@ -118,12 +118,29 @@ func (s *sx) rename(from, to string) *sx {
 	return n
 }
 
-// fuelRewrite rewrites every define-fun-rec of an SMT-LIB text.
-func fuelRewrite(src string) string {
+// fuelRewrite rewrites every define-fun-rec of an SMT-LIB text, and turns
+// (define-fun-opaque f ...) into an uninterpreted function whose defining
+// axiom is only included where a contract or lemma says "reveal f".
+func fuelRewrite(src string, opaque map[string]string) string {
 	forms, spans := parseSexps(src)
 	var sb strings.Builder
 	last := 0
 	for k, f := range forms {
+		if f.isL && len(f.list) == 5 && f.list[0].atom == "define-fun-opaque" {
+			name := f.list[1].atom
+			params := f.list[2]
+			var sorts, names []string
+			for _, p := range params.list {
+				names = append(names, p.list[0].atom)
+				sorts = append(sorts, p.list[1].String())
+			}
+			app := "(" + name + " " + strings.Join(names, " ") + ")"
+			sb.WriteString(src[last:spans[k][0]])
+			sb.WriteString("(declare-fun " + name + " (" + strings.Join(sorts, " ") + ") " + f.list[3].String() + ")\n")
+			opaque[name] = "(assert (forall " + params.String() + " (! (= " + app + " " + f.list[4].String() + ") :pattern (" + app + "))))\n"
+			last = spans[k][1]
+			continue
+		}
 		if !f.isL || len(f.list) != 5 || f.list[0].atom != "define-fun-rec" {
 			continue
 		}
